@@ -513,33 +513,50 @@ pub fn run_undo(prog: &UProgram) -> UResult {
                         if crate::util::debug() {
                             eprintln!("TREE got  {}\nTREE want {}", scoped_seq(&roots, &doc), want_seq);
                         }
-                        let only_maps = {
-                            let got: serde_json::Value = serde_json::from_str(&scoped_seq(&roots, &doc)).unwrap_or_default();
-                            let want: serde_json::Value = serde_json::from_str(want_seq).unwrap_or_default();
-                            only_missing_keys(&got, &want)
+                        let got_tree: serde_json::Value = serde_json::from_str(&scoped_seq(&roots, &doc)).unwrap_or_default();
+                        let want_tree: serde_json::Value = serde_json::from_str(want_seq).unwrap_or_default();
+                        let shadowed = shadowed_chain(&roots, &doc);
+                        let restored = restored_container(&doc);
+                        let classify = |got: &serde_json::Value, want: &serde_json::Value| -> &'static str {
+                            let only_maps = only_missing_keys(got, want);
+                            if only_maps && redo_cleared_nonempty {
+                                ":map-entry-after-discarded-redo"
+                            } else if only_maps && shadowed {
+                                // second sub-population of the same conflict rule: the entry to restore has a newer entry to its
+                                // right on the key's chain that this undo step did not delete itself (a later tracked step wrote
+                                // and removed the key again); redo then refuses the entry, as Yjs does
+                                ":map-entry-shadowed-by-newer-deleted-entry"
+                            } else if restored && {
+                                // observed on the unchanged tree: after an undo the elements are all there, in another order; after
+                                // a redo an element of a re-created container may also be missing. An element that an *undo* fails
+                                // to bring back is not part of this finding and stays reportable.
+                                let (g2, w2) = (strip_attrs(got), strip_attrs(want));
+                                only_reordered(got, want) || g2 == w2 || only_reordered(&g2, &w2) || !is_undo
+                            } {
+                                // third sub-population: a nested type was removed and brought back by undo/redo (a re-created copy),
+                                // and steps captured inside the old or the new copy are undone / redone afterwards
+                                ":content-of-restored-container"
+                            } else {
+                                ""
+                            }
                         };
-                        let sub = if only_maps && redo_cleared_nonempty {
-                            ":map-entry-after-discarded-redo"
-                        } else if only_maps && shadowed_chain(&roots, &doc) {
-                            // second sub-population of the same conflict rule: the entry to restore has a newer entry to its
-                            // right on the key's chain that this undo step did not delete itself (a later tracked step wrote
-                            // and removed the key again); redo then refuses the entry, as Yjs does
-                            ":map-entry-shadowed-by-newer-deleted-entry"
-                        } else if restored_container(&doc) && {
-                            let got: serde_json::Value = serde_json::from_str(&scoped_seq(&roots, &doc)).unwrap_or_default();
-                            let want: serde_json::Value = serde_json::from_str(want_seq).unwrap_or_default();
-                            // observed on the unchanged tree: after an undo the elements are all there, in another order; after
-                            // a redo an element of a re-created container may also be missing. An element that an *undo* fails
-                            // to bring back is not part of this finding and stays reportable.
-                            let (g2, w2) = (strip_attrs(&got), strip_attrs(&want));
-                            only_reordered(&got, &want) || g2 == w2 || only_reordered(&g2, &w2) || !is_undo
-                        } {
-                            // third sub-population: a nested type was removed and brought back by undo/redo (a re-created copy),
-                            // and steps captured inside the old or the new copy are undone / redone afterwards
-                            ":content-of-restored-container"
-                        } else {
-                            ""
-                        };
+                        let mut sub = classify(&got_tree, &want_tree);
+                        if sub.is_empty() {
+                            // two findings may show in one step (e.g. a map entry that is refused and, in another root type,
+                            // reordered content of a re-created container): the step is classified root by root, and carries a
+                            // listed signature only if *every* differing root does - otherwise it stays unclassified
+                            let mut subs: Vec<&'static str> = vec![];
+                            for k in ["t", "m", "x"] {
+                                let (g, w) = (&got_tree[k], &want_tree[k]);
+                                if g != w {
+                                    subs.push(classify(g, w));
+                                }
+                            }
+                            if subs.len() >= 2 && subs.iter().all(|s| !s.is_empty()) {
+                                cnt.inc("inverse_law_two_findings_in_one_step");
+                                sub = subs[0];
+                            }
+                        }
                         fail!(format!("{}{}", if is_undo { "undo-not-inverse" } else { "redo-not-inverse" }, sub), format!("after {} (popped {} step(s), no foreign edits in between) the scoped types differ from their content {} the step\n   got  {}\n   want {}", if is_undo { "undo" } else { "redo" }, popped, if is_undo { "before" } else { "after" }, after, want));
                     }
                 } else {
@@ -565,6 +582,11 @@ pub fn run_undo(prog: &UProgram) -> UResult {
                     } else {
                         undo_m.push(Entry { before: before.clone(), after: after.clone(), before_seq: before_seq.clone(), after_seq, tainted: e.tainted });
                     }
+                } else if e.tainted && o2 == o {
+                    // another origin edited in between (e.g. deleted the container the popped step lived in): the call may
+                    // have nothing visible left to revert and record no counterpart; the property promises stack behaviour
+                    // only without foreign edits
+                    cnt.inc("tainted_step_without_counterpart");
                 } else {
                     fail!("other-stack", format!("{} changed the other stack by {}", if is_undo { "undo" } else { "redo" }, o2 as i64 - o as i64));
                 }
